@@ -22,7 +22,7 @@ U == {
   E("top.rs", "file", "rs", FALSE, 0),
   E("srcx/q.rs", "file", "rs", FALSE, 0) }
 ExtListsAll == {<<"default">>, <<"rs">>, <<"rs", "txt">>, <<"RS">>, <<"bak">>}
-SourceDirsAll == {"rel", "dotrel", "abs"}
+SourceDirsAll == {"rel", "dotrel", "abs", "updown", "hidden"}
 InvocationsAll == {<<"cfgdir", "bare">>, <<"cfgdir", "rel">>, <<"cfgdir", "abs">>, <<"parent", "rel">>, <<"parent", "abs">>,
                    <<"root", "rel">>, <<"root", "abs">>}
 =============================================================================
